@@ -3,3 +3,5 @@ package c02
 import "encoding/json"
 
 func jsonUnmarshal(b []byte, v any) error { return json.Unmarshal(b, v) }
+
+func jsonMarshal(v any) ([]byte, error) { return json.Marshal(v) }
